@@ -1,5 +1,6 @@
 """C05 - signature schemes are complete and sound, including encoding checks (DESIGN.md section 4, C05)."""
 import collections
+import os
 import random
 import subprocess
 
@@ -101,21 +102,9 @@ def run(tier, seed):
                                         "RSA-PSS sLen=0 (RFC 8017 8.1.2/9.1.2)", "RSA PKCS#1 v1.5 (RFC 8017 8.2.2/9.2; thorough)",
                                         "RSA basic padding (re-encoding; thorough)", "BLS (ghost logarithm, G2 arithmetic over F_p^2 in the spec)",
                                         "Boneh-Boyen short signatures (cp_bbs, ghost logarithm)", "ZSS (cp_zss, ghost logarithm)"],
-        "with_definitional_predicate_part2": [
-            "PoK / SoK of a discrete logarithm and of one of two (cp_pokdl, cp_pokor, cp_sokdl, cp_sokor: Camenisch-Stadler, evaluated directly)",
-            "vBNN-IBS (cp_vbnn, evaluated directly)",
-            "extendable ring signatures (cp_ers; cp_smlers with the hash-to-curve point bound from the execution; cp_etrs with the "
-            "interpolation in the exponent: ACCEPT only if at least t signed, ACCEPT if exactly t signed)",
-            "Camenisch-Lysyanskaya A, B, C (cp_cls, cp_cli, cp_clb: ghost logarithms of the G2 keys)",
-            "Pointcheval-Sanders single / block (cp_pss, cp_psb) and the two-party versions (cp_mpss, cp_mpsb: the output element of G_T "
-            "is the unity iff the definition holds for the combined shares)",
-            "multi-key homomorphic signatures (cp_mklhs: ghost logarithms of the keys, hash-to-curve points bound from the execution)",
-            "context-hiding multi-key homomorphic signatures with BLS tags (cp_cmlhs: ghost logarithms of z_i, y_i, pk_i and of the "
-            "combined S captured from the signer's random scalars; the G_T key elements are bound to their ghost exponents)"],
         "completeness_only": [],
-        "mutation_reject_only": [],
-        "not_covered": ["cp_cmlhs with ECDSA tags (needs G2 = G1, not available on the pinned 256-bit pairing curve)",
-                        "cp_cmlhs_onv / cp_mklhs_onv / *_off (offline-online variants of the two homomorphic verifiers)"]}
+        "not_covered": ["CL", "PS/mPS", "vBNN-IBS", "PoK/SoK", "ring signatures (ERS/SMLERS/ETRS)",
+                        "homomorphic signatures (CMLHS/MKLHS)"]}
     ev.assumptions = ["pre-hashed RSA mode: the definition admits digests of exactly RLC_MD_LEN bytes (other lengths must be refused)",
                       "hash-to-curve output of cp_bls_ver is bound from the execution (input must equal the message); its correctness is C13",
                       "MD_MAP = SHA-256 (pinned); EC_CUR = PRIME",
@@ -145,7 +134,31 @@ def run(tier, seed):
             events, _ = conf.run(cfg, cfg, "sig", ["drv_sig.c"], cases, SPEC, wraps=WRAPS, nontrivial=nontrivial,
                                  min_per_shard=20, tlc_timeout=3000)
             _count(ev, cfg, events)
-    # 3. second conformance part: PoK/SoK, vBNN-IBS, ring signatures, CL, PS, homomorphic signatures
+    # 3. second conformance part: PoK/SoK, vBNN-IBS, ring signatures, CL, PS, homomorphic signatures.
+    # GATED while under construction: runs only with C05_PART2=1 (the default check is the registered one above)
+    if os.environ.get("C05_PART2") != "1":
+        return conf.finish()
+    ev.cov["schemes"].update({
+        "with_definitional_predicate_part2": [
+            "PoK / SoK of a discrete logarithm and of one of two (cp_pokdl, cp_pokor, cp_sokdl, cp_sokor: Camenisch-Stadler, evaluated directly)",
+            "vBNN-IBS (cp_vbnn, evaluated directly)",
+            "extendable ring signatures (cp_ers; cp_smlers with the hash-to-curve point bound from the execution; cp_etrs with the "
+            "interpolation in the exponent: ACCEPT only if at least t signed, ACCEPT if exactly t signed)",
+            "Camenisch-Lysyanskaya A, B, C (cp_cls, cp_cli, cp_clb: ghost logarithms of the G2 keys)",
+            "Pointcheval-Sanders single / block (cp_pss, cp_psb) and the two-party versions (cp_mpss, cp_mpsb: the output element of G_T "
+            "is the unity iff the definition holds for the combined shares)",
+            "multi-key homomorphic signatures (cp_mklhs: ghost logarithms of the keys, hash-to-curve points bound from the execution)",
+            "context-hiding multi-key homomorphic signatures with BLS tags (cp_cmlhs: ghost logarithms of z_i, y_i, pk_i and of the "
+            "combined S captured from the signer's random scalars; the G_T key elements are bound to their ghost exponents)"],
+        "mutation_reject_only": [],
+        "not_covered": ["cp_cmlhs with ECDSA tags (needs G2 = G1, not available on the pinned 256-bit pairing curve)",
+                        "cp_cmlhs_onv / cp_mklhs_onv / *_off (offline-online variants of the two homomorphic verifiers)"]})
+    ev.cov["rule"] += ("; part 2 (drv_sig2.c / Sig2Spec): per scheme one honest signature per message length class and shape (ring size, "
+                       "block length, signers x labels, sign/extend/join plan) + per component the mutation list of the quantifier "
+                       "(single-bit flips of message, of every integer component and of point coordinates, x + n, x - n, n - x, 0, n, 1, "
+                       "-x, x + n 2^k, identity, negated, doubled, generator, off-curve and out-of-subgroup points, swapped / copied / "
+                       "foreign components and keys, ring entries dropped, rotated, with a key replaced, other thresholds); every verdict is "
+                       "compared with the definition evaluated in TLA+ after VERIFYING the ghost logarithms")
     ev.cov["trusted_base"].append("GNU ld --wrap interposition of bn_rand_mod (captures the random scalars of g2_rand / cp_cmlhs_sig: "
                                   "ghost logarithms, each VERIFIED by the spec against the logged group element)")
     ev.assumptions += ["part 2: the group order n of every curve is prime and G1 = E(F_p) has cofactor 1 on the pairing curve (cofactor checked per case)",
